@@ -544,7 +544,10 @@ Proof.
     pose proof (guard_safe_spec n c key PRemove) as G. destruct (guard_safe n c key PRemove) as [dbn d|ns rs].
     + destruct G as [Ed _]. destruct (remove_value d key) as [[d' r'] msgs] eqn:ER.
       destruct (remove_value_spec _ _ _ _ _ ER) as (W1 & C1 & M1).
-      intros [= <- <-]. apply frame_keeps. now apply (frame_put_sends c n dbn d).
+      intros [= <- <-]. apply frame_keeps.
+      pose proof (frame_put_sends c n dbn d d' msgs Hn Ed W1 C1 M1) as F.
+      destruct r'; auto. destruct (is_primary _); auto.
+      eapply frame_trans; [exact F|apply send_to_primary_frame].
     + intros [= <- <-]. now apply keeps_stop.
   - (* set *)
     pose proof (guard_safe_spec n c key PWrite) as G. destruct (guard_safe n c key PWrite) as [dbn d|ns rs].
